@@ -185,6 +185,13 @@ var restoreCmd = &cobra.Command{
 					return fmt.Errorf("error: pathspec '%s' did not match any file(s) known to goit", arg)
 				}
 				for _, path := range paths {
+					// restoring a file drops the entries beneath its name and vice versa:
+					// a path of the list may be settled already
+					_, _, isEntryFound := client.Idx.GetEntry([]byte(path))
+					node, isNodeFound := object.GetNode(tree.Children, path)
+					if !isEntryFound && !(isNodeFound && len(node.Children) == 0) {
+						continue
+					}
 					if err := restoreIndex(client.RootGoitPath, path, client.Idx, tree); err != nil {
 						return err
 					}
